@@ -14,12 +14,12 @@ register('C02', level='other', sidecars=BASE + ['components', 'periodic', 'trans
          explanation='contracts on the component->branch translators (exact immittances and source phasors at every w, frequency gating), on '
                      'the DC/complex solution wrappers (peak vs RMS scaling, real part at w=0) and on the element value helpers; the network '
                      'solver underneath is covered under C01')
-register('C03', level='other', sidecars=['net_bounded', 'net_ops_bounded'], trusted=NET,
+register('C03', level='other', sidecars=['net_bounded', 'net_ops_bounded', 'statespace'], trusted=NET,
          explanation='bounded: renamed / permuted / terminal-reversed / re-referenced copies of topology T1 give the same physical results for all element values; '
                      'change of reference shifts all potentials by one constant')
 register('C04', level='other', sidecars=BASE + ['net_bounded', 'net_ops_bounded'], trusted=NET,
          explanation='bounded: superposition, scaling and zero-in/zero-out on topologies T1 and T3 through the library source-zeroing operations, all values symbolic')
-register('C05', level='other', sidecars=BASE + ['solution', 'net_bounded', 'multifreq'], trusted=NET,
+register('C05', level='other', sidecars=BASE + ['solution', 'net_bounded', 'multifreq', 'statespace'], trusted=NET,
          explanation='contracts on get_power of the network, DC and complex solutions plus the loop-free sign lemmas for R, L, C element laws; Tellegen on the bounded topologies')
 register('C06', level='other', sidecars=BASE + ['net_bounded', 'net_ops_bounded'], trusted=NET,
          explanation='bounded: port impedance of series/parallel ladders (symmetry, reference independence, identical nodes, element impedance), open-circuit voltage on T1')
@@ -32,7 +32,7 @@ register('C16', level='other', sidecars=BASE + ['net_ops_bounded'], trusted=NET,
                      'reference switch, passive network - structure clauses plus equality of the solver result before/after for all element values')
 register('C17', level='proof', sidecars=BASE + ['components', 'loaders', 'dump_load'], trusted=NUM + ['json'],
          explanation='loader table, to_complex, load_network, dump_load round trips under the assumed json/yaml contract')
-register('C19', level='proof', sidecars=BASE + ['components', 'periodic', 'loaders', 'dump_load', 'net_ops_bounded'], trusted=NUM,
+register('C19', level='proof', sidecars=BASE + ['components', 'periodic', 'loaders', 'dump_load', 'net_ops_bounded', 'statespace'], trusted=NUM,
          explanation='raises-iff contracts on constructors and loaders')
 register('C09', level='other', sidecars=BASE + ['components', 'periodic', 'transformers', 'multifreq'], trusted=NUM + ['numpy-array'],
          explanation='contracts on frequency_components (sinusoidal sources; periodic source with up to 8 harmonics), TimeDomainSolution (sum of |X_k| cos(w_k t + arg X_k), power = v(t) i(t)) '
@@ -41,3 +41,12 @@ register('C20', level='proof', sidecars=BASE + ['components', 'loaders', 'dump_l
          explanation='FRAME pass (ownership analysis by syntactic rules, pyvc/frame.py) over every function of Network/, Circuit/, SignalProcessing/ and dump_load.py: each mutation site '
                      'mutates an object allocated by the same function; no global/nonlocal; module-level tables are never written. Plus the semantic frame obligations (inputs compared '
                      'before/after the call) of the loader contracts. History independence then follows: every operation is a function of its arguments and leaves pre-existing objects unchanged.')
+register('C10', level='other', sidecars=BASE + ['statespace'], trusted=NET,
+         explanation='bounded: on five RLC circuits (RC, series RLC, two sources with interleaved names, two inductors / two capacitors listed backwards) the transfer function '
+                     'C (jwI - A)^-1 B + D of the real state_space_model equals, for symbolic w and all element values, the phasor response computed by the real ComplexSolution for each '
+                     'source alone (and the DC gain the DC solution); states are identified as capacitor voltages / inductor currents; input columns follow the published source order')
+register('C11', level='other', sidecars=['statespace'], trusted=NET,
+         explanation='bounded: W*A + A^T*W is negative semidefinite (diagonal <= 0, det >= 0) for the 1- and 2-state circuits of C10, proved by z3 (nonlinear real arithmetic) for all positive element values')
+register('C12', level='other', sidecars=BASE + ['statespace'], trusted=NET + ['lsim'],
+         explanation='contracts on TransientSolution with a stubbed simulator (model matrices, zero initial state, input column order, outputs = C x + D u, power = v i, unknown ids) and, bounded, '
+                     'KCL for every state and input, i = C dv/dt and v = L di/dt on the C10 circuits; the simulator itself (scipy lsim) is an assumed contract')
